@@ -161,8 +161,32 @@ def quadrotor_files():
     return {"Quadrotor": [("quad.f", get("f")), ("quad.g_accel", get("g_accel")), ("quad.g_gyro", get("g_gyro"))]}
 
 
+def bezier_files():
+    from cyecca.models import bezier
+    U = []
+    for m in (1, 3):
+        for n in range(1, 8 if m == 1 else 4):
+            def ev(n=n, m=m):
+                return F("ev", [("P", m, n + 1), ("T", 1), ("t", 1)], lambda P, T, t: bezier.Bezier(P, T).eval(t))
+            U.append(("bez_eval_%d_%d" % (n, m), ev))
+            for k in range(1, min(n, 4) + 1):
+                def dv(n=n, m=m, k=k):
+                    return F("dv", [("P", m, n + 1), ("T", 1)], lambda P, T: dense(bezier.Bezier(P, T).deriv(k).P))
+                U.append(("bez_deriv_%d_%d_o%d" % (n, m, k), dv))
+            if n >= 2:
+                def dd(n=n, m=m):
+                    return F("dd", [("P", m, n + 1), ("T", 1)], lambda P, T: dense(bezier.Bezier(P, T).deriv().deriv().P))
+                U.append(("bez_deriv_%d_%d_chain2" % (n, m), dd))
+    b3 = lambda k: (lambda: bezier.derive_bezier3()[k])
+    b7 = lambda k: (lambda: bezier.derive_bezier7()[k])
+    U += [("bezier3_solve", b3("bezier3_solve")), ("bezier3_traj", b3("bezier3_traj")),
+          ("bezier7_solve", b7("bezier7_solve")), ("bezier7_traj", b7("bezier7_traj")),
+          ("bezier_multirotor", lambda: bezier.derive_multirotor()["bezier_multirotor"])]
+    return {"Bezier": U}
+
+
 def all_files():
     files = {}
-    for part in (lie_files, series_files, quadrotor_files):
+    for part in (lie_files, series_files, quadrotor_files, bezier_files):
         files.update(part())
     return files
